@@ -41,18 +41,51 @@ def model(ctx):
     cfg = MODEL_CFG.format(names=MODEL_NAMES, **c)
     res = shared.run_model(ctx, "Flox", cfg + INVS, name=f"Flox[{c}]", constants=str(c), timeout=3000, heap="12g")
     if res.violated:
-        raise MachineryFailure(f"Flox.tla: {res.violated} violated in the composed model: {res.error_trace[-1:]}")
+        _confirm_counterexample(ctx, res.violated, res.error_trace[-1] if res.error_trace else None, nlabels=c["nlabels"], nlabels2=0, se=2)
     # every reindex= setting, numpy and chunked labels (smaller inputs: the configuration space is 6x larger)
     c2 = dict(maxlen=1 if ctx.tier == "quick" else 2, nlabels=2)
     cfg2 = MODEL_CFG.format(names=MODEL_NAMES, **c2).replace('Reindexes = {"none"}', 'Reindexes = {"none", "true", "false"}').replace("ByDasks = {FALSE}", "ByDasks = {FALSE, TRUE}").replace("NLabels2 = 0", "NLabels2 = 2").replace("ArrDasks = {TRUE}", "ArrDasks = {TRUE, FALSE}").replace('Engines = {"none"}', 'Engines = {"none", "flox"}')
     res = shared.run_model(ctx, "Flox", cfg2 + INVS, name=f"Flox[{c2}, all reindex, numpy|dask labels, one|two groupers, chunked|in-memory array, engine none|flox]", constants=str(c2), timeout=5000, heap="24g")
     if res.violated:
-        raise MachineryFailure(f"Flox.tla: {res.violated} violated in the composed model: {res.error_trace[-1:]}")
+        _confirm_counterexample(ctx, res.violated, res.error_trace[-1] if res.error_trace else None, nlabels=c2["nlabels"], nlabels2=2, se=2)
     small = MODEL_CFG.format(names='"nansum", "argmax"', maxlen=2 if ctx.tier == "quick" else 3, nlabels=2)
     for w in ("W_Cohorts", "W_Blockwise", "W_Refused", "W_FillRefusal"):
         r = shared.run_model(ctx, "Flox", small + f"INVARIANT {w}\n", name=f"Flox(vacuity witness {w})", constants="MaxLen=3", heap="12g")
         if r.violated != w:
             raise MachineryFailure(f"Flox.tla: witness {w} not reached — the composed model never exercises that path")
+
+
+def _confirm_counterexample(ctx, inv, state, *, nlabels, nlabels2, se):
+    """Flox.tla interprets the LIVE blueprint table: an invariant violated in the model is a statement about the code.  It
+    counts only after the real call on the same input disagrees with the reference too (TraceReduce.tla); a counterexample
+    the code does not show means the model is wrong (exit 2)."""
+    from .. import redcase, tlc
+
+    if not state or "cfg" not in state or not isinstance(state.get("cfg"), dict) or "sort" not in state["cfg"]:
+        raise MachineryFailure(f"Flox.tla: {inv} violated, no usable counterexample state: {str(state)[:400]}")
+    beh = {"vals": state["vals"], "labs": state["labs"], "labs2": state.get("labs2", []), "cuts": state["cuts"], "cfg": state["cfg"],
+           "groups": state["fact"]["groups"], "plan": state["plan"], "result": state.get("result", []), "nlabels": nlabels, "nlabels2": nlabels2, "se": se}
+    import json as _json
+
+    table = _json.load(open("/verif/gen/AggTable.json"))
+    case = composecase.case_of(beh, table)
+    common._init_worker()
+    two = "codes2" in case
+    rec = composecase.run_two_case(case) if two else redcase.run_reduce_case(case)
+    if two and "exc" not in rec:
+        # the pair labels raveled to single tokens: the returned grid is the list of requested labels, in the order returned
+        nl2 = case["nlabels2"]
+        rec = dict(rec, codes=[-1 if a < 0 or b < 0 else a * nl2 + b for a, b in zip(case["codes"], case["codes2"])], req=list(rec["groups"]), sort=False)
+    if "exc" in rec:
+        if rec["exc"] in redcase.CLEAN_REFUSALS:
+            raise MachineryFailure(f"Flox.tla: {inv} violated in the model but the real call refuses ({rec['exc']}): model wrong? {case}")
+        ctx.violation(dict(case, compose=True), f"compose:design-counterexample-confirmed:{inv}:exception:{rec['exc']}", rec.get("msg"))
+        return
+    fails, _ = tlc.validate_trace("TraceReduce", [redcase.tlc_record(rec, 0)], tag="compose-cx", shards=1)
+    if fails:
+        ctx.violation(dict(case, compose=True, groups=rec["groups"], out=rec["out"]), f"compose:design-counterexample-confirmed:{inv}", {"expected": fails[0][3], "spec_result": beh["result"]})
+        return
+    raise MachineryFailure(f"Flox.tla: {inv} violated in the model, but the real call on the same input agrees with the reference: the model is wrong: {case} spec={beh['result']} real={rec['out']}")
 
 
 def _simulate_parallel(n, seed, **kw):
@@ -63,12 +96,18 @@ def _simulate_parallel(n, seed, **kw):
     behs, states = [], 0
     for b, info in outs:
         if info["violated"]:
-            raise MachineryFailure(f"Flox.tla (simulation): {info['violated']} violated: {info['tail'][-600:]}")
+            raise _ModelViolated(info)
         if not b:
             raise MachineryFailure(f"Flox.tla (simulation) produced no behaviour: {info['tail'][-600:]}")
         behs += b
         states += info["states"]
     return behs, states
+
+
+class _ModelViolated(Exception):
+    def __init__(self, info):
+        super().__init__(info["violated"])
+        self.info = info
 
 
 def replay(ctx, clauses, *, n=None, configs=None, only=None):
@@ -83,7 +122,14 @@ def replay(ctx, clauses, *, n=None, configs=None, only=None):
             [dict(maxlen=5, nlabels=3, se=2), dict(maxlen=7, nlabels=3, se=3), dict(maxlen=6, nlabels=4, se=2)]
     total = 0
     for k, c in enumerate(configs):
-        behs, states = _simulate_parallel(n // len(configs), ctx.seed * 17 + k, **c)
+        try:
+            behs, states = _simulate_parallel(n // len(configs), ctx.seed * 17 + k, **c)
+        except _ModelViolated as mv:
+            # the model (interpreting the live blueprint table) contradicts the reference: confirm on the real code
+            _confirm_counterexample(ctx, mv.info["violated"], mv.info.get("state"), nlabels=c["nlabels"], nlabels2=2, se=c["se"])
+            ctx.cov["states"] += 1
+            ctx.cov["transitions"] += 1
+            continue
         if only is not None:
             behs = [b for b in behs if only(b)]
         ctx.cov["states"] += states
